@@ -46,6 +46,12 @@ static inline unsigned char ref_byte(u64 v, unsigned size, int be, unsigned k) {
 }
 static inline u64 ref_mask(unsigned size) { return size >= 8 ? ~(u64)0 : (((u64)1 << (8 * size)) - 1); }
 static inline i64 ref_sext(u64 v, unsigned size) { unsigned s = 64 - 8 * size; return s ? ((i64)(v << s)) >> s : (i64)v; }
+/* selector: symbolic by default; -DVERIF_WHICH=k fixes the arm (one solver query per arm) */
+#ifdef VERIF_WHICH
+# define SELECT(name) u32 name = (VERIF_WHICH)
+#else
+# define SELECT(name) IN(u32, name)
+#endif
 void harness(void);
 #ifndef __CPROVER__
 int main(void) { harness(); return verif_failures ? 1 : 0; }
